@@ -442,7 +442,7 @@ class C04Engine(Engine):
     prop = "C04"
     name = "c04_wfaults"
     level = "fault_enumeration"
-    quick_runs = 72
+    quick_runs = 480
     quick_budget_s = 150.0
     thorough_budget_s = 1500.0
     chunk = 2
